@@ -59,11 +59,28 @@ func (rep *report) finish(ld *loaded, known map[string]knownFinding, noReplay bo
 			byRel[hr.Rel] = append(byRel[hr.Rel], replayItem{ID: id, Harness: hr.Name, Model: f.Model})
 		}
 	}
+	// translator validation: models of a sample of clean paths, to be run natively (expected: no failing assertion, no panic)
+	type oref struct {
+		hr    *harnessReport
+		id    string
+		model map[string]string
+	}
+	var okRefs []oref
+	for _, hr := range rep.Harnesses {
+		for k, m := range hr.Sum.OkModels {
+			if k >= 12 {
+				break
+			}
+			id := fmt.Sprintf("selftest-%s-%d", hr.Name, k)
+			okRefs = append(okRefs, oref{hr, id, m})
+			byRel[hr.Rel] = append(byRel[hr.Rel], replayItem{ID: id, Harness: hr.Name, Model: m})
+		}
+	}
 	replays := 0
 	outDir := filepath.Join(verifDir, "out", "replay", rep.Prop)
 	os.RemoveAll(outDir)
 	var results map[string]replayResult
-	if len(refs) > 0 && !noReplay {
+	if (len(refs) > 0 || len(okRefs) > 0) && !noReplay {
 		os.Setenv("VERIF_TIER", rep.Tier)
 		var log string
 		var err error
@@ -108,6 +125,34 @@ func (rep *report) finish(ld *loaded, known map[string]knownFinding, noReplay bo
 					}
 				}
 			}
+		}
+	}
+	selfRun, selfAgreed := 0, 0
+	var selfLines []string
+	for _, o := range okRefs {
+		res, ok := results[o.id]
+		if !ok {
+			continue
+		}
+		selfRun++
+		bad := res.Result == "panic"
+		for _, l := range res.Labels {
+			// a failing assertion that belongs to an open known-finding class is expected natively as well
+			openKnown := false
+			for _, id := range res.Known[l] {
+				if k, ok := known[id]; ok && k.Status == "open" {
+					openKnown = true
+				}
+			}
+			if !openKnown {
+				bad = true
+			}
+		}
+		if bad {
+			selfLines = append(selfLines, fmt.Sprintf("TRANSLATOR-MISMATCH property=%s harness=%s: a path the encoding found clean fails natively (%s %v %s) model=%v", rep.Prop, o.hr.Name, res.Result, res.Labels, res.Msg, o.model))
+			rep.Inconclusive++
+		} else {
+			selfAgreed++
 		}
 	}
 	violations := 0
@@ -249,7 +294,8 @@ func (rep *report) finish(ld *loaded, known map[string]knownFinding, noReplay bo
 	cov := map[string]interface{}{
 		"states":                        max1(states),
 		"transitions":                   max1(int(instrs)),
-		"traces_validated_against_impl": replays,
+		"traces_validated_against_impl": replays + selfRun,
+		"translator_validation":         map[string]int{"clean_paths_replayed_natively": selfRun, "agreed": selfAgreed},
 		"samples":                       samples,
 		"rule":                          "a state is one feasible path of a harness completed by the symbolic interpreter; transitions are SSA instructions interpreted; every obligation on a path is one solver query over all input values satisfying the path condition",
 		"functions_encoded":             rep.Cfg.Functions,
@@ -298,6 +344,9 @@ func (rep *report) finish(ld *loaded, known map[string]knownFinding, noReplay bo
 	}
 	if len(rep.SolverErrors) > 0 {
 		fmt.Printf("SOLVER-ERRORS %d (queries concerned are inconclusive): %v\n", len(rep.SolverErrors), rep.SolverErrors[:min(3, len(rep.SolverErrors))])
+	}
+	for _, l := range selfLines {
+		fmt.Println(l)
 	}
 	for _, l := range violationLines {
 		fmt.Println(l)
